@@ -95,7 +95,10 @@ def search(ctx, hints):
     if ctx.thorough():
         keys *= 25
     cwd = ctx.scratch('c14s')
-    rc, so, se = vlib.run([binp, 'mode=search', 'out=' + out, 'keys=%d' % keys], cwd=cwd,
+    extra = ['reuse=3', 'workers=8', 'perworker=6', 'loops=3']
+    if ctx.thorough():
+        extra = ['reuse=16', 'workers=16', 'perworker=10', 'loops=8']
+    rc, so, se = vlib.run([binp, 'mode=search', 'out=' + out, 'keys=%d' % keys] + extra, cwd=cwd,
                           env=dict(VERIF_SEED=str(ctx.seed)), timeout=1500)
     import shutil
     shutil.rmtree(cwd, ignore_errors=True)
@@ -109,6 +112,27 @@ def search(ctx, hints):
             res['distinct_nontrivial'] = st.get('evaluations', 0)
             res['samples'] = st.get('samples', [])
             res['results'] = st.get('results', {})
+    res['concurrency_note'] = ('S7 runs Pair/VerifySig/Sign/HashToPoint from several goroutines on distinct inputs and compares '
+                               'with the sequential results: sampled schedules, EVIDENCE not proof (see results conc:*)')
+    if ctx.thorough():
+        # the same phase under the Go race detector: any reported race on the pairing/verify path is a finding
+        rbin, rlog = vlib.go_build(ctx, vlib.HARNESS, './cmd/c14', 'c14race', race=True)
+        if rbin:
+            cwd2 = ctx.scratch('c14r')
+            rc2, so2, se2 = vlib.run([rbin, 'mode=conc', 'workers=8', 'perworker=2', 'loops=1'], cwd=cwd2,
+                                     env=dict(VERIF_SEED=str(ctx.seed), GORACE='halt_on_error=0'), timeout=1500)
+            shutil.rmtree(cwd2, ignore_errors=True)
+            races = se2.count('WARNING: DATA RACE')
+            res['race_detector'] = dict(ran=True, races=races)
+            if races:
+                import re as _re
+                m = _re.search(r'Write at .*?\n\s+(\S+)\(', se2)
+                where = m.group(1) if m else 'unknown'
+                res['violations'].append(dict(key='data-race:' + where.split('/')[-1],
+                                              desc='Go race detector: %d data race(s) while 8 goroutines run Pair/VerifySig/Sign/HashToPoint on distinct inputs; first write in %s' % (races, where),
+                                              replay=dict(command='go build -race ./cmd/c14 && c14 mode=conc workers=8', excerpt=se2[:1500])))
+        else:
+            res['race_detector'] = dict(ran=False, note=rlog[-300:])
     for line in open(out):
         line = line.strip()
         if not line:
